@@ -84,14 +84,15 @@ structure Comp (Ctor Res Imp Mac Ord : Type) where
   res : Option Res              -- reset to None first thing in compile()
   imports : Imp                 -- reset to []
   macros : Mac                  -- reset to {}
-  order : Ord                   -- macro_resolution_order: NOT reset; assigned after imports are loaded
+  order : Ord                   -- macro_resolution_order: reset to [] (since /repo 9934639); assigned after imports are loaded
   ctor : Ctor                   -- performance_progress_list_var_name, lookup_paths, recursion_check: never assigned by compile()
 
 /-- Python attribute names behind the fields of `Comp` (checked against the `self.<attr> = …` statements of the real
 class on every run by harness/props/c11.py: `resetAttrs` must be exactly the attributes assigned at the top of compile(),
 before anything that can raise; `lateAttrs` the other attributes compile() assigns; `ctorAttrs` assigned in __init__ only) -/
-def Comp.resetAttrs : List String := ["routine_infos", "routine_ops", "named_coroutines", "source_map", "imports", "macros"]
-def Comp.lateAttrs : List String := ["macro_resolution_order"]
+def Comp.resetAttrs : List String :=
+  ["routine_infos", "routine_ops", "named_coroutines", "source_map", "imports", "macros", "macro_resolution_order"]
+def Comp.lateAttrs : List String := []
 def Comp.ctorAttrs : List String := ["performance_progress_list_var_name", "lookup_paths", "recursion_check"]
 
 /-- the pure stages of compile(); each depends on the source (text, file name, macros_only, original_base_file), the
@@ -101,6 +102,7 @@ recursion_check + [file])`).  The file system is part of `loadImported`. -/
 structure Stages (Src Ctor Res Imp Mac Ord Err : Type) where
   emptyImp : Imp
   emptyMac : Mac
+  emptyOrd : Ord
   isSsbScript : Src → Bool                             -- parse_exps_meta_attributes
   ssbCompile : Src → Except Err Res                    -- SsbScriptSsbCompiler().compile
   parseImports : Src → Except Err Imp                  -- ExplorerScriptReader.read, ImportVisitor
@@ -117,7 +119,7 @@ variable {Src Ctor Res Imp Mac Ord Err : Type}
 /-- ExplorerScriptSsbCompiler._compile, statement by statement; returns the object afterwards and the exception raised -/
 def compileBody (st : Stages Src Ctor Res Imp Mac Ord Err) (o : Comp Ctor Res Imp Mac Ord) (src : Src) :
     Comp Ctor Res Imp Mac Ord × Option Err :=
-  let o := { o with res := none, imports := st.emptyImp, macros := st.emptyMac }
+  let o := { o with res := none, imports := st.emptyImp, macros := st.emptyMac, order := st.emptyOrd }
   if st.isSsbScript src then
     match st.ssbCompile src with
     | .error e => (o, some e)
@@ -157,8 +159,8 @@ def compile (st : Stages Src Ctor Res Imp Mac Ord Err) (o : Comp Ctor Res Imp Ma
   | (o', some e) => ({ o' with res := none }, some (st.convertErr e))
 
 /-- a freshly constructed compiler object (`__init__`) -/
-def Comp.init (st : Stages Src Ctor Res Imp Mac Ord Err) (c : Ctor) (ord0 : Ord) : Comp Ctor Res Imp Mac Ord :=
-  ⟨none, st.emptyImp, st.emptyMac, ord0, c⟩
+def Comp.init (st : Stages Src Ctor Res Imp Mac Ord Err) (c : Ctor) : Comp Ctor Res Imp Mac Ord :=
+  ⟨none, st.emptyImp, st.emptyMac, st.emptyOrd, c⟩
 
 /-- any sequence of earlier compile() calls on the object -/
 def compileMany (st : Stages Src Ctor Res Imp Mac Ord Err) (o : Comp Ctor Res Imp Mac Ord) : List Src → Comp Ctor Res Imp Mac Ord
